@@ -46,21 +46,21 @@ Section KD.
             | Panic => Panic
             | OutOfModel => OutOfModel
             end in
-        match d, ar with
-        | _ :: _, _ =>
-          (fix god (l : list (string * (string * value))) : res (list string) :=
-             match l with
-             | [] => Ok []
-             | (_, (nm, x)) :: r => h <- visit nm x ;; t <- god r ;; Ok (h ++ t)
-             end) d
-        | [], Some l =>
-          (fix goa (l : list (string * value)) : res (list string) :=
-             match l with
-             | [] => Ok []
-             | (nm, x) :: r => h <- visit nm x ;; t <- goa r ;; Ok (h ++ t)
-             end) l
-        | [], None => Ok []
-        end
+        dk <- (fix god (l : list (string * (string * value))) : res (list string) :=
+                 match l with
+                 | [] => Ok []
+                 | (_, (nm, x)) :: r => h <- visit nm x ;; t <- god r ;; Ok (h ++ t)
+                 end) d ;;
+        ak <- match ar with
+              | Some l =>
+                (fix goa (l : list (string * value)) : res (list string) :=
+                   match l with
+                   | [] => Ok []
+                   | (nm, x) :: r => h <- visit nm x ;; t <- goa r ;; Ok (h ++ t)
+                   end) l
+              | None => Ok []
+              end ;;
+        Ok (dk ++ ak)
       | _ => Ok []
       end
     end.
